@@ -4,6 +4,7 @@
 id=$1; tier=${2:-quick}
 [ -n "$VERIF_TIER" ] && [ -z "$2" ] && tier=$VERIF_TIER
 flavor=""
-bin=$(/verif/scripts/build.sh full $flavor) || { echo "HARNESS-ERROR property=$id build failed"; exit 2; }
+bin=$(/verif/scripts/build.sh full) || { echo "HARNESS-ERROR property=$id build failed"; exit 2; }
+if [ "$id" = "C07" ]; then /verif/scripts/build.sh full race >/dev/null || { echo "HARNESS-ERROR property=$id race build failed"; exit 2; }; fi
 cd /verif
 exec "$bin" check "$id" "$tier"
